@@ -79,11 +79,13 @@ def tree_hash(extra=()):
 def _gen_headers(gen):
     d = os.path.join(gen, "Vector", "BLF")
     os.makedirs(d, exist_ok=True)
-    with open(os.path.join(d, "config.h"), "w") as f:
-        f.write("#pragma once\n")
-    with open(os.path.join(d, "vector_blf_export.h"), "w") as f:
-        f.write("#pragma once\n#define VECTOR_BLF_EXPORT\n#define VECTOR_BLF_NO_EXPORT\n"
-                "#define VECTOR_BLF_DEPRECATED\n")
+    for fn, txt in (("config.h", "#pragma once\n"),
+                    ("vector_blf_export.h", "#pragma once\n#define VECTOR_BLF_EXPORT\n"
+                     "#define VECTOR_BLF_NO_EXPORT\n#define VECTOR_BLF_DEPRECATED\n")):
+        p = os.path.join(d, fn)
+        if not os.path.exists(p) or open(p).read() != txt:
+            with open(p, "w") as f:
+                f.write(txt)
 
 
 def variant_flags(variant, bdir):
@@ -100,18 +102,25 @@ def build(variant, drivers, keep=3):
     variant plus the named harness drivers; returns dict driver -> executable.
     Build directories are keyed by a hash of the library sources, the harness
     sources and the flags; older directories of the same variant are pruned."""
-    hfiles = sorted(os.path.join(HARNESS, f) for f in os.listdir(HARNESS)
-                    if f.endswith((".h", ".cpp")))
-    key = tree_hash(hfiles + [variant, json.dumps(VARIANTS[variant], sort_keys=True)])
+    # key: library sources + flags (+ the shim for shim variants).  Driver sources live in
+    # /verif and are tracked by ninja (mtime + depfiles) inside the keyed directory.
+    hfiles = [os.path.join(HARNESS, "vsync.h"), os.path.join(HARNESS, "vsync.cpp")] \
+        if VARIANTS[variant]["shim"] else []
+    key = tree_hash(hfiles + [variant, json.dumps(VARIANTS[variant], sort_keys=True), " ".join(COMMON)])
     root = os.path.join(WORK, "build")
     os.makedirs(root, exist_ok=True)
     bdir = os.path.join(root, "%s-%s" % (variant, key))
-    stamp = os.path.join(bdir, "ok-" + "-".join(sorted(drivers)))
     exes = {d: os.path.join(bdir, d) for d in drivers}
-    if os.path.exists(stamp) and all(os.path.exists(e) for e in exes.values()):
-        os.utime(bdir)
-        return exes
     os.makedirs(bdir, exist_ok=True)
+    os.utime(bdir)
+    # all drivers ever requested in this directory stay in build.ninja
+    known = set(drivers)
+    dl = os.path.join(bdir, "drivers.txt")
+    if os.path.exists(dl):
+        known |= set(x for x in open(dl).read().split() if os.path.exists(os.path.join(HARNESS, x + ".cpp")))
+    with open(dl, "w") as f:
+        f.write(" ".join(sorted(known)))
+    alld = sorted(known)
     _gen_headers(os.path.join(bdir, "gen"))
     cxx, fl = variant_flags(variant, bdir)
     lines = ["cxx = %s" % cxx, "flags = %s" % " ".join(fl),
@@ -134,21 +143,24 @@ def build(variant, drivers, keep=3):
         lines.append("  flags = %s" % " ".join(
             [x for x in fl if x not in ("-include", os.path.join(HARNESS, "vsync.h"))]))
         shim_objs = ["obj/vsync_impl.o"]
-    for d in drivers:
+    for d in alld:
         src = os.path.join(HARNESS, d + ".cpp")
         lines.append("build obj/%s.o: cc %s" % (d, src))
         lines.append("build %s: link obj/%s.o %s libblf.a" % (d, d, " ".join(shim_objs)))
         lines.append("  libs = -lz -lrapidcheck")
-    with open(os.path.join(bdir, "build.ninja"), "w") as f:
-        f.write("\n".join(lines) + "\n")
+    txt = "\n".join(lines) + "\n"
+    bn = os.path.join(bdir, "build.ninja")
+    if not os.path.exists(bn) or open(bn).read() != txt:
+        with open(bn, "w") as f:
+            f.write(txt)
     t0 = time.time()
     r = subprocess.run(["ninja", "-C", bdir, "-j", str(NCPU)] + list(drivers),
                        stdout=subprocess.PIPE, stderr=subprocess.STDOUT, text=True)
     if r.returncode != 0:
         log(r.stdout[-6000:])
         raise BuildError("build of variant %s failed" % variant)
-    open(stamp, "w").close()
-    log("[build] %s %s in %.1fs" % (variant, ",".join(drivers), time.time() - t0))
+    if time.time() - t0 > 1.0:
+        log("[build] %s %s in %.1fs" % (variant, ",".join(drivers), time.time() - t0))
     # prune
     sib = sorted((os.path.join(root, x) for x in os.listdir(root) if x.startswith(variant + "-")),
                  key=lambda p: os.path.getmtime(p), reverse=True)
@@ -179,7 +191,7 @@ def run_tlc(module, cfg, name, workers=None, timeout=600, simulate=None, depth=N
     os.makedirs(wdir)
     tla = module if os.path.isabs(module) else os.path.join(SPEC, module + ".tla")
     cfgp = cfg if os.path.isabs(cfg) else os.path.join(SPEC, cfg)
-    jopts = ["-XX:+UseParallelGC", "-Xmx" + heap]
+    jopts = ["-XX:+UseParallelGC", "-Xmx" + heap, "-DTLA-Library=" + SPEC]
     if dfs:
         jopts.append("-Dtlc2.tool.queue.IStateQueue=StateDeque")
     cmd = ["java"] + jopts + ["-cp", TLA_JAR, "tlc2.TLC",
@@ -238,6 +250,18 @@ def run_tlc(module, cfg, name, workers=None, timeout=600, simulate=None, depth=N
     return res
 
 
+def write_mc(name, base, defs):
+    """TLC .cfg files cannot hold records/tuples: generate a module that EXTENDS the
+    spec and defines the constants; returns its absolute path (in .work/mc, which is
+    put on TLC's module search path together with /verif/spec)."""
+    d = os.path.join(WORK, "mc")
+    os.makedirs(d, exist_ok=True)
+    p = os.path.join(d, name + ".tla")
+    with open(p, "w") as f:
+        f.write("---- MODULE %s ----\nEXTENDS %s\n%s\n====\n" % (name, base, defs))
+    return p
+
+
 def tlc_must_pass(res, what):
     """Model failure (parse error, crash, timeout) is 'check broken' (exit 2),
     a property violation *of the spec itself* is reported distinctly."""
@@ -268,12 +292,16 @@ def path_cover(lines, max_paths=None):
     edge occurs in at least one path."""
     inits = {}
     succ = {}
+    projs = {}     # full spec state -> canonical projection compared with the real code
     nedges = 0
     for d in lines:
         if "init" in d:
-            inits[canon(d["init"])] = d["a"]
+            k = canon(d["init"])
+            inits[k] = d["a"]
+            projs[k] = canon(d["pt"])
         elif "s" in d:
             s, a, t = canon(d["s"]), canon(d["a"]), canon(d["t"])
+            projs[t] = canon(d["pt"])
             m = succ.setdefault(s, {})
             if a not in m:
                 m[a] = t
@@ -325,7 +353,7 @@ def path_cover(lines, max_paths=None):
                 t = succ[cur][a]
                 steps.append((a, t))
                 cur = t
-            paths.append([inits[root], root, steps])
+            paths.append([inits[root], projs[root], [(a, projs[t]) for (a, t) in steps]])
             if max_paths and len(paths) >= max_paths:
                 break
     stats = dict(states=len(succ), edges=nedges, paths=len(paths),
